@@ -29,13 +29,21 @@ func entTerm(k, v []byte, m uint8, x uint64) string {
 
 // sstRead opens table fid of dir with a fresh environment, Searches every built key and
 // iterates the table forward. perKey[i] is "(KFound <entry>)", "KNotFound" or "KErr".
-func sstRead(dir string, fid uint64, blockSize int, keys [][]byte) (kind string, perKey []string, iter []string, blockErr bool) {
+// With warm = true the environment has a block cache and the two read-ahead paths run first
+// (prefetchBlockForKey for every built key; a forward iterator with PrefetchBlocks = 2), with a
+// barrier on the cache after each: whatever they left in the cache is what Search / iteration see.
+func sstRead(dir string, fid uint64, blockSize int, keys [][]byte, warm bool) (kind string, perKey []string, iter []string, blockErr bool) {
 	defer func() {
 		if r := recover(); r != nil {
 			kind = "panic"
 		}
 	}()
-	env := lsm.VerifNewTableEnv(dir, blockSize, 0.01)
+	var env *lsm.VerifTableEnv
+	if warm {
+		env = lsm.VerifNewTableEnvCached(dir, blockSize, 0.01, 256)
+	} else {
+		env = lsm.VerifNewTableEnv(dir, blockSize, 0.01)
+	}
 	defer env.Close()
 	st, err := env.VerifOpenTable(fid)
 	if err != nil {
@@ -45,6 +53,22 @@ func sstRead(dir string, fid uint64, blockSize int, keys [][]byte) (kind string,
 		return "openerr", nil, nil, false
 	}
 	defer st.CloseKeep()
+	if warm {
+		for _, k := range keys {
+			if _, err := st.VerifPrefetchKey(k); err != nil {
+				return "panic", nil, nil, false
+			}
+		}
+		env.VerifCacheWait()
+		out, err := st.VerifPrefetchIterate(2)
+		if err != nil {
+			return "panic", nil, nil, false
+		}
+		for _, e := range out { // what the read-ahead iterator itself served
+			iter = append(iter, entTerm(e.Key, e.Value, e.Meta, e.ExpiresAt))
+		}
+		env.VerifCacheWait()
+	}
 	for _, k := range keys {
 		e, found, _, err := st.Search(k, 0)
 		switch {
@@ -73,7 +97,7 @@ func sstRead(dir string, fid uint64, blockSize int, keys [][]byte) (kind string,
 // table shapes: (block size, number of entries, key format, value length): blocks of 1, 2, 3 and 4+ entries
 var sstShapes = []struct {
 	block, n, vlen int
-}{{120, 9, 8}, {64, 5, 6}, {200, 11, 5}, {90, 6, 9}, {160, 7, 12}, {48, 4, 3}}
+}{{120, 6, 8}, {120, 9, 8}, {64, 5, 6}, {200, 11, 5}, {90, 6, 9}, {160, 7, 12}, {48, 4, 3}}
 
 func sstFlipCases(c *corr.Ctx, root string) error {
 	nt := c.Scale(1, 12)
@@ -128,7 +152,7 @@ func sstFlipCases(c *corr.Ctx, root string) error {
 			return err
 		}
 		// the intact table must serve exactly what was built
-		kind, perKey, iter, berr := sstRead(dir, 1, sh.block, keys)
+		kind, perKey, iter, berr := sstRead(dir, 1, sh.block, keys, false)
 		if kind != "read" || len(iter) != len(built) || berr {
 			return fmt.Errorf("sst: intact table unreadable: %s (%d of %d entries)", kind, len(iter), len(built))
 		}
@@ -147,30 +171,41 @@ func sstFlipCases(c *corr.Ctx, root string) error {
 			if err := os.WriteFile(path, flip(orig, bit), 0o644); err != nil {
 				return err
 			}
-			kind, perKey, iter, berr := sstRead(dir, 1, sh.block, keys)
-			c.Count("sst_" + kind)
-			obs := "TOpenErr"
-			switch kind {
-			case "panic":
-				obs = "TPanic"
-			case "read":
-				obs = fmt.Sprintf("(TRead %s %s %s)", corr.List(perKey), corr.List(iter), corr.Bool(berr))
-				if berr {
-					c.Count("sst_block_error_reported")
+			opened := true
+			for _, warm := range []bool{false, true} {
+				tag := "sst_"
+				if warm {
+					if !opened { // the warm pass is for flipped files that open
+						break
+					}
+					tag = "sstwarm_"
 				}
-				for _, pk := range perKey {
-					switch {
-					case pk == "KErr":
-						c.Count("sst_key_error")
-					case pk == "KNotFound":
-						c.Count("sst_key_notfound")
-					default:
-						c.Count("sst_key_found")
+				kind, perKey, iter, berr := sstRead(dir, 1, sh.block, keys, warm)
+				opened = kind == "read"
+				c.Count(tag + kind)
+				obs := "TOpenErr"
+				switch kind {
+				case "panic":
+					obs = "TPanic"
+				case "read":
+					obs = fmt.Sprintf("(TRead %s %s %s)", corr.List(perKey), corr.List(iter), corr.Bool(berr))
+					if berr {
+						c.Count(tag + "block_error_reported")
+					}
+					for _, pk := range perKey {
+						switch {
+						case pk == "KErr":
+							c.Count(tag + "key_error")
+						case pk == "KNotFound":
+							c.Count(tag + "key_notfound")
+						default:
+							c.Count(tag + "key_found")
+						}
 					}
 				}
+				term := fmt.Sprintf("Ct %s %d %s", builtTerm, bit, obs)
+				c.Emit(corr.Case{Coq: term, Nontrivial: true, Desc: crDesc{Kind: "sst", Orig: hex.EncodeToString(orig), Bit: bit}})
 			}
-			term := fmt.Sprintf("Ct %s %d %s", builtTerm, bit, obs)
-			c.Emit(corr.Case{Coq: term, Nontrivial: true, Desc: crDesc{Kind: "sst", Orig: hex.EncodeToString(orig), Bit: bit}})
 		}
 		os.RemoveAll(dir)
 	}
